@@ -328,7 +328,8 @@ theorem ruc8 (d0 d1 d2 d3 d4 d5 d6 d7 : Byte) (h0 : isXDigit d0 = true) (h1 : is
 /-- `\uXXXX`: replaced by the UTF-8 encoding of the value of the four digits -/
 theorem cuc_ucn4 (pre post : List Byte) (d0 d1 d2 d3 : Byte) (hpre : BSL ∉ pre)
     (h0 : isXDigit d0 = true) (h1 : isXDigit d1 = true) (h2 : isXDigit d2 = true) (h3 : isXDigit d3 = true)
-    (hv : digitsValue 16 [hexVal d0, hexVal d1, hexVal d2, hexVal d3] ≠ 0) :
+    (hv : digitsValue 16 [hexVal d0, hexVal d1, hexVal d2, hexVal d3] ≠ 0)
+    (hv10 : digitsValue 16 [hexVal d0, hexVal d1, hexVal d2, hexVal d3] ≠ 10) :
     convertUniversalChars (pre ++ BSL :: 117#8 :: d0 :: d1 :: d2 :: d3 :: post) =
       pre ++ encodeUtf8 (BitVec.ofNat 32 (digitsValue 16 [hexVal d0, hexVal d1, hexVal d2, hexVal d3])) ++
         convertUniversalChars post := by
@@ -348,9 +349,14 @@ theorem cuc_ucn4 (pre post : List Byte) (d0 d1 d2 d3 : Byte) (hpre : BSL ∉ pre
     have := congrArg BitVec.toNat h
     simp [digitsValue] at this hv
     omega
+  have hne10 : BitVec.ofNat 32 (digitsValue 16 [hexVal d0, hexVal d1, hexVal d2, hexVal d3]) ≠ 10#32 := by
+    intro h
+    have := congrArg BitVec.toNat h
+    simp [digitsValue] at this hv10
+    omega
   unfold convertUniversalChars
-  simp only [List.length_cons, convertUniversalCharsAux, ucnStep, if_true, hr, hne, ne_eq, not_false_eq_true, List.drop_succ_cons,
-    List.drop_zero]
+  simp only [List.length_cons, convertUniversalCharsAux, ucnStep, if_true, hr, hne, hne10, ne_eq, not_false_eq_true, and_self,
+    List.drop_succ_cons, List.drop_zero]
   congr 1
   exact cucAux_fuel _ _ _ (by omega) (by omega)
 
@@ -358,7 +364,8 @@ theorem cuc_ucn4 (pre post : List Byte) (d0 d1 d2 d3 : Byte) (hpre : BSL ∉ pre
 theorem cuc_ucn8 (pre post : List Byte) (d0 d1 d2 d3 d4 d5 d6 d7 : Byte) (hpre : BSL ∉ pre)
     (h0 : isXDigit d0 = true) (h1 : isXDigit d1 = true) (h2 : isXDigit d2 = true) (h3 : isXDigit d3 = true)
     (h4 : isXDigit d4 = true) (h5 : isXDigit d5 = true) (h6 : isXDigit d6 = true) (h7 : isXDigit d7 = true)
-    (hv : digitsValue 16 [hexVal d0, hexVal d1, hexVal d2, hexVal d3, hexVal d4, hexVal d5, hexVal d6, hexVal d7] ≠ 0) :
+    (hv : digitsValue 16 [hexVal d0, hexVal d1, hexVal d2, hexVal d3, hexVal d4, hexVal d5, hexVal d6, hexVal d7] ≠ 0)
+    (hv10 : digitsValue 16 [hexVal d0, hexVal d1, hexVal d2, hexVal d3, hexVal d4, hexVal d5, hexVal d6, hexVal d7] ≠ 10) :
     convertUniversalChars (pre ++ BSL :: 85#8 :: d0 :: d1 :: d2 :: d3 :: d4 :: d5 :: d6 :: d7 :: post) =
       pre ++ encodeUtf8 (BitVec.ofNat 32
           (digitsValue 16 [hexVal d0, hexVal d1, hexVal d2, hexVal d3, hexVal d4, hexVal d5, hexVal d6, hexVal d7])) ++
@@ -384,10 +391,16 @@ theorem cuc_ucn8 (pre post : List Byte) (d0 d1 d2 d3 d4 d5 d6 d7 : Byte) (hpre :
     have := congrArg BitVec.toNat h
     simp [digitsValue] at this hv
     omega
+  have hne10 : BitVec.ofNat 32
+      (digitsValue 16 [hexVal d0, hexVal d1, hexVal d2, hexVal d3, hexVal d4, hexVal d5, hexVal d6, hexVal d7]) ≠ 10#32 := by
+    intro h
+    have := congrArg BitVec.toNat h
+    simp [digitsValue] at this hv10
+    omega
   have hu : (117#8 : Byte) ≠ 85#8 := by decide
   unfold convertUniversalChars
-  simp only [List.length_cons, convertUniversalCharsAux, ucnStep, if_true, hr, hne, ne_eq, not_false_eq_true, List.drop_succ_cons,
-    List.drop_zero, hu.symm, if_false]
+  simp only [List.length_cons, convertUniversalCharsAux, ucnStep, if_true, hr, hne, hne10, ne_eq, not_false_eq_true, and_self,
+    List.drop_succ_cons, List.drop_zero, hu.symm, if_false]
   congr 1
   exact cucAux_fuel _ _ _ (by omega) (by omega)
 
